@@ -43,6 +43,7 @@ m = {
         {"name": "vsock", "path": "harness/vcore (bin vsock)", "serves_properties": sorted(p for p, c in CLAIMS.items() if c["engine"].startswith("vsock")), "kind_free_text": "scripted-kernel engines for the hooked socket calls (binary with a poisoning global allocator)"},
         {"name": "vpreempt", "path": "harness/vcore built with --features preemptive (target-preempt)", "serves_properties": sorted(p for p, c in CLAIMS.items() if c["engine"].startswith("vpreempt")), "kind_free_text": "the vcore engines built against open-coroutine-core with the preemptive feature"},
         {"name": "vuring", "path": "harness/vcore built with --features io_uring (target-uring)", "serves_properties": sorted(p for p, c in CLAIMS.items() if c["engine"].startswith("vuring")), "kind_free_text": "the vcore engines built against open-coroutine-core with the io_uring feature"},
+        {"name": "vapi", "path": "harness/vapi", "serves_properties": sorted(p for p, c in CLAIMS.items() if "vapi" in c["engine"]), "kind_free_text": "proptest engine linking /repo/open-coroutine and, through its build script, the hook cdylib: histories through task!/join/try_cancel and the interposed libc symbols, fresh process per case; contributes a sub-run to each property it serves (merged into the property's evidence file by ./check)"},
         {"name": "vqshim", "path": "harness/vqshim", "serves_properties": sorted(p for p, c in CLAIMS.items() if c["engine"].startswith("vqshim")), "kind_free_text": "queue sources from /repo compiled against shim Injector/Worker/atomics under a harness-owned scheduler"},
     ],
     "checks": checks,
